@@ -30,8 +30,12 @@ type Knobs struct {
 	MaxLogic  int    `json:"max_logical,omitempty"`
 	HandBuilt bool   `json:"hand_built,omitempty"` // the Runtime is a composite literal handed to NewEnvRuntime
 	Prelude   string `json:"prelude,omitempty"`    // source the host evaluates while setting this runtime up (its own configuration)
-	MaxSleepN int64  `json:"max_sleep_ns,omitempty"`
-	UseSimCtx bool   `json:"simctx,omitempty"` // entry points take the simulated context
+	// LimitsByField: the structural limits are not passed as options at
+	// construction but assigned to the exported Runtime / CallStack fields
+	// after the runtime has already evaluated something
+	LimitsByField bool  `json:"limits_by_field,omitempty"`
+	MaxSleepN     int64 `json:"max_sleep_ns,omitempty"`
+	UseSimCtx     bool  `json:"simctx,omitempty"` // entry points take the simulated context
 }
 
 // FaultSpec arms one cooperative fault point: the Hit-th dynamic hit (1-based)
@@ -206,19 +210,19 @@ func NewWorld(k Knobs) (*World, error) {
 	if k.MaxAlloc != 0 {
 		cfg = append(cfg, lisp.WithMaxAlloc(k.MaxAlloc))
 	}
-	if k.MaxPhys != 0 {
+	if k.MaxPhys != 0 && !k.LimitsByField {
 		cfg = append(cfg, lisp.WithMaximumPhysicalStackHeight(k.MaxPhys))
 	}
-	if k.MaxNest != 0 {
+	if k.MaxNest != 0 && !k.LimitsByField {
 		cfg = append(cfg, lisp.WithMaxEvalNesting(k.MaxNest))
 	}
-	if k.MaxTail != 0 {
+	if k.MaxTail != 0 && !k.LimitsByField {
 		cfg = append(cfg, lisp.WithMaxTailIterations(k.MaxTail))
 	}
-	if k.MaxMacro != 0 {
+	if k.MaxMacro != 0 && !k.LimitsByField {
 		cfg = append(cfg, lisp.WithMaxMacroExpansionDepth(k.MaxMacro))
 	}
-	if k.MaxLogic != 0 {
+	if k.MaxLogic != 0 && !k.LimitsByField {
 		cfg = append(cfg, lisp.WithMaximumLogicalStackHeight(k.MaxLogic))
 	}
 	if k.MaxSleepN != 0 {
@@ -251,6 +255,27 @@ func NewWorld(k Knobs) (*World, error) {
 	w.Ctx = NewSimCtx(w)
 	if err := w.installProbes(); err != nil {
 		return nil, err
+	}
+	if k.LimitsByField {
+		// the runtime has been used before its host tightens the limits
+		if rc := env.LoadString("warmup", "(defun zz-warm (n) (if (<= n 0) 0 (+ 1 (zz-warm (- n 1))))) (zz-warm 3) (defmacro zz-wm (x) x) (zz-wm 1)"); rc.Type == lisp.LError {
+			return nil, fmt.Errorf("warm-up: %v", rc)
+		}
+		if k.MaxPhys != 0 {
+			env.Runtime.Stack.MaxHeightPhysical = k.MaxPhys
+		}
+		if k.MaxNest != 0 {
+			env.Runtime.MaxEvalNesting = k.MaxNest
+		}
+		if k.MaxTail != 0 {
+			env.Runtime.Stack.MaxTailIterations = k.MaxTail
+		}
+		if k.MaxMacro != 0 {
+			env.Runtime.MaxMacroExpansionDepth = k.MaxMacro
+		}
+		if k.MaxLogic != 0 {
+			env.Runtime.Stack.MaxHeightLogical = k.MaxLogic
+		}
 	}
 	if k.Prelude != "" {
 		if rc := env.LoadString("prelude", k.Prelude); rc.Type == lisp.LError {
